@@ -13,7 +13,8 @@ Theorems about the model `AsynqModel.Asyncio` of asynq/asynq_to_async.py and asy
 `unwrap` rule; it is tied to the real `fn(args)` and `fn.asynq(args).value()` by the correspondence check (conventions
 `call` and `value`), not to `Core.Seq` by a theorem.
 
-Programs: every call kind (function, method, pure, async_proxy, non-generator), with or without an explicit `asyncio_fn`,
+Programs: every call kind (function, method, pure, async_proxy, non-generator, @deduplicate()), with or without an explicit
+`asyncio_fn`, declared with or without `sync_fn=` (`Call.sfn`: the callee of a plain synchronous call then is that sync_fn),
 every nesting of tuples / lists / dicts of ANY width and depth, raises (of `Exception`s and of BaseException-only errors)
 and try/except at every yield, `return` and `asynq.result()` of ANY kind of object (`valueKind`), plain synchronous calls,
 yielded instances of SUBCLASSES of tuple / list / dict (`Ys.sub`), async_proxy functions returning None or a container
@@ -25,6 +26,8 @@ counterexample showing that it cannot be dropped FOR THE CODE AS IT IS:
                (`C15_base_handler_counterexample`);
 * `p.plainY` - no yielded container is an instance of a subclass and no async_proxy function returns a non-future
                (`C15_container_subclass_counterexample`, `C15_proxy_value_counterexample`);
+* `p.noDedupSync` (only where a statement says WITH WHICH exception a synchronous call is refused) - no plain synchronous
+               call of a @deduplicate() function (`C15_dedup_sync_counterexample`);
 and, where they speak about outcomes, `p.noSync` or "the asyncio run logged no synchronous call": a plain synchronous call
 is refused under asyncio by design (`C15_noSync_necessary`).
 
@@ -107,9 +110,30 @@ theorem C15_mode_untouched_by_asynq (c : Call) (p : Prog) (s : St) :
     · rw [bodyR_mode]; rfl
 
 /-- **inside, the flag is on; everything the engine awaits together completes before the yield returns or raises; every
-    synchronous call attempted is refused and its callee never runs** (ALL programs): every event logged by an asyncio run
-    satisfies `evOkA` (a callee run by a synchronous call would log `start _ false`, which `evOkA` rejects) -/
+    synchronous call attempted FAILS and its callee never runs** (ALL programs): every event logged by an asyncio run
+    satisfies `evOkA` (a callee run by a synchronous call would log `start _ false` or `sfn`, which `evOkA` rejects; the call
+    comes back with the RuntimeError or - `refusal` - with the TypeError raised while its message is built:
+    `C15_sync_refused_with_RuntimeError_partial` says when it is the RuntimeError) -/
 theorem C15_asyncio_run_good (c : Call) (p : Prog) : (topA c p {}).2.log.all evOkA = true := (topA_good c p).2
+
+/-- **no `sync_fn` ever runs inside an asyncio run** (ALL programs; every callee declared any way: function / method,
+    with or without `sync_fn=`, with or without `asyncio_fn=`): the guard of `AsyncDecorator.__call__` AND that of
+    `AsyncAndSyncPairDecorator.__call__` (reached directly or through `AsyncAndSyncPairDecoratorBinder.__call__`) refuse the
+    call before the synchronous implementation is entered - the log of `await fn.asyncio(args)` contains no `sfn` event -/
+theorem C15_sync_fn_never_runs_under_asyncio (c : Call) (p : Prog) :
+    (topA c p {}).2.log.all (fun e => !isSfn e) = true := by
+  have h := (topA_good c p).2
+  rw [List.all_eq_true] at h ⊢
+  intro e he
+  have h1 := h e he
+  cases e <;> simp_all [evOkA, syncFailedOk, isSfn]
+
+/-- **every plain synchronous call attempted inside an asyncio run comes back with the RuntimeError "asyncio mode does not
+    support synchronous calls"** - whatever the declaration of the callee (function / method / non-generator, with or without
+    `sync_fn=` / `asyncio_fn=`), at any depth of the task tree, in a handler or not -, for every program that makes no plain
+    synchronous call of a @deduplicate() function (`C15_dedup_sync_counterexample`: for those the code as it is raises TypeError) -/
+theorem C15_sync_refused_with_RuntimeError_partial (c : Call) (p : Prog) (hg : p.noDedupSync = true) :
+    (topA c p {}).2.log.all syncRefusedOk = true := topA_strict c p hg
 
 /-- the asynq side of the same statement, for ALL programs: flag off inside, siblings complete first, synchronous calls
     allowed -/
@@ -146,8 +170,8 @@ theorem C15_spec_respects_correspondence (model impl : List Obs) (h : sameViews 
 
 /-- **C15 as a whole**: the observations of the model under all five ways of running a program are accepted by the
     observer `spec`, the same Boolean function the check evaluates on the observations of the real implementation -/
-theorem C15_spec_holds_partial (c : Call) (p : Prog) (hy : p.plainY = true) (hx : p.safe = true) :
-    spec (observe c p) = true := spec_holds c p hy hx
+theorem C15_spec_holds_partial (c : Call) (p : Prog) (hy : p.plainY = true) (hx : p.safe = true)
+    (hg : p.noDedupSync = true) : spec (observe c p) = true := spec_holds c p hy hx hg
 
 /-! ## Section B: where the code as it is violates the property (genuine divergences), and why each hypothesis is needed -/
 
@@ -216,6 +240,15 @@ theorem C15_proxy_value_counterexample :
     spec (observe c q) = false := by
   decide
 
+/-- (after the repair of `sync-call-of-deduplicated-function-raises-TypeError-in-asyncio-mode`) a plain synchronous call of a
+    @deduplicate() function made while the flag is on is refused with the RuntimeError like any other; `p.noDedupSync` is no
+    longer needed for it -/
+theorem C15_dedup_sync_refused :
+    let c : Call := { kind := .gen, afn := false, label := 0 }
+    let p : Prog := .sync { kind := .dedup, afn := false, label := 1 } (.ret 1) (.ret 2) .reraise
+    (topA c p {}).1 = .err .syncRefused ∧ (topA c p {}).2.log.all syncRefusedOk = true ∧ spec (observe c p) = true := by
+  decide
+
 /-- **`p.noSync` (resp. "no synchronous call logged") cannot be dropped** - by design, not a defect: a plain synchronous
     call is performed by asynq and refused under asyncio, so the outcomes differ; the observer accepts this run (the clauses
     that apply are "refused" and "the outcome is the one the root task ended with") -/
@@ -242,16 +275,47 @@ theorem C15_mode_confined (c : Call) (p : Prog) (s : St) : (topA c p s).2.mode =
   simp [topA, callA_mode]
 
 /-- by construction of `bodyA` (one unfolding): a synchronous call while the flag is on is refused, nothing of the callee is
-    logged, the caller continues in its handler with RuntimeError -/
+    logged, the caller continues in its handler with the exception `refusal c` - the RuntimeError unless the callee is a
+    @deduplicate() function -/
 theorem C15_sync_refused (gen : Bool) (t : Nat) (env : List Val) (caught : Option Err) (i : Nat)
     (c : Call) (child k h : Prog) (s : St) (hm : s.mode = true) :
     bodyA gen t env caught i (.sync c child k h) s =
-      bodyA gen t env (some .syncRefused) i h (s.emit (.syncX t (.err .syncRefused))) := by
-  simp [bodyA, hm, Err.isBase]
+      bodyA gen t env (some (refusal c)) i h (s.emit (.syncX t (.err (refusal c)))) ∧
+    (c.kind ≠ .dedup → refusal c = .syncRefused) := by
+  refine ⟨by simp [bodyA, hm], fun hk => ?_⟩
+  cases hc : c.kind <;> simp_all [refusal]
+
+/-- by construction of `bodyR` / `syncStart`: the same call made while the flag is off runs the callee - through its `sync_fn`
+    (logged first) if it was declared with one -/
+theorem C15_sync_allowed_by_asynq (gen : Bool) (t : Nat) (env : List Val) (caught : Option Err) (i : Nat)
+    (c : Call) (child k h : Prog) (s : St) (hm : s.mode = false) :
+    (syncStart c s).log = (if c.sfn then [Ev.start c.label false, Ev.sfn c.label] else [Ev.start c.label false]) ++ s.log ∧
+    (bodyR gen t env caught i (.sync c child k h) s).1 =
+      (match bodyR c.kind.isGen c.label [] none 0 child (syncStart c s) with
+       | (.ok v, s1) => (bodyR gen t (env ++ [v]) caught i k (s1.emit (.syncX t (.ok v)))).1
+       | (.err e, s1) => if e.isBase then .err e else (bodyR gen t env (some e) i h (s1.emit (.syncX t (.err e)))).1
+       | (.esc v, _) => .esc v) := by
+  refine ⟨by rw [syncStart_log, hm], ?_⟩
+  conv => lhs; unfold bodyR
+  simp only [hm, Bool.false_eq_true, if_false]
+  rcases bodyR c.kind.isGen c.label [] none 0 child (syncStart c s) with ⟨r, s1⟩
+  cases r with
+  | ok v => rfl
+  | err e => simp only; split <;> rfl
+  | esc v => rfl
+
+/-- by construction of `callA` / `ysR` / `resolveA` / `topValue` (none reads `Call.sfn`): `.asynq()` and `.asyncio()` of a function
+    declared with `sync_fn=` are those of the function declared without -/
+theorem C15_sync_fn_unused_by_asynq_and_asyncio (c : Call) (p : Prog) (s : St) (b : Bool) :
+    topA { c with sfn := b } p s = topA c p s ∧ topValue { c with sfn := b } p s = topValue c p s ∧
+    ysR (.task { c with sfn := b } p) s = ysR (.task c p) s ∧ resolveA (.task { c with sfn := b } p) s = resolveA (.task c p) s := by
+  refine ⟨rfl, rfl, ?_, ?_⟩
+  · simp [ysR]
+  · simp [resolveA, callA]
 
 /-- by construction of `topCall`: the same call made from the top level while the flag is on -/
 theorem C15_sync_refused_top (c : Call) (p : Prog) (s : St) (hm : s.mode = true) :
-    topCall c p s = (.err .syncRefused, s) := by
+    topCall c p s = (.err (refusal c), s) := by
   simp [topCall, hm]
 
 /-- by construction (`bodyA` / `bodyR` have the same clause for `res` and `ret`): `asynq.result(v)` is `return v` on both
@@ -289,6 +353,28 @@ example : proj (topA (cG 0) demo {}).2.log.reverse = proj (topCall (cG 0) demo {
 /-- a synchronous call inside an asyncio run is refused, and the same program run by asynq performs it -/
 example : (topA (cG 0) (.sync (cG 1) (.ret 1) (.ret 2) (.ret 3)) {}).1 = .ok (.node 3 []) ∧
     (topCall (cG 0) (.sync (cG 1) (.ret 1) (.ret 2) (.ret 3)) {}).1 = .ok (.node 2 [.node 1 []]) := by decide
+
+/-- a function / method declared with `sync_fn=` (label 1, with an explicit asyncio_fn too) called synchronously, and yielded:
+    asynq runs its sync_fn for the plain call only; asyncio refuses the plain call (no `sfn` in the log) and awaits the other -/
+private def cS (n : Nat) : Call := { kind := .meth, afn := true, label := n, sfn := true }
+private def demoPair : Prog :=
+  .sync (cS 1) (.ret 1) (.yld false (.task (cS 2) (.ret 2)) (.ret 3) .reraise) (.yld false (.task (cS 2) (.ret 2)) (.ret 4) .reraise)
+example : (topCall (cG 0) demoPair {}).2.log.reverse =
+    [.start 0 false, .sfn 1, .start 1 false, .fin 1 (.ok (.node 1 [])), .syncX 0 (.ok (.node 1 [])), .start 2 false,
+     .fin 2 (.ok (.node 2 [])), .run 0 1 true false (.ok (.node 2 [])), .fin 0 (.ok (.node 3 [.node 1 [], .node 2 []]))] := by decide
+example : (topA (cG 0) demoPair {}).2.log.reverse =
+    [.start 0 true, .syncX 0 (.err .syncRefused), .afn 2, .start 2 true, .fin 2 (.ok (.node 2 [])),
+     .run 0 1 true true (.ok (.node 2 [])), .fin 0 (.ok (.node 4 [.node 2 []]))] := by decide
+example : spec (observe (cG 0) demoPair) = true := by decide
+/-- the observer rejects an asyncio run in which the sync_fn of a refused call was entered all the same (what a binder that
+    calls `decorator.sync_fn` directly produces when that sync_fn goes on to call a guarded function) ... -/
+example : specClause ((observe (cG 0) demoPair).map (fun ob =>
+    if ob.conv.isAio then { ob with log := ob.log.take 1 ++ [.sfn 1] ++ ob.log.drop 1 } else ob)) = "sync-refused" := by
+  decide
+/-- ... and one in which asynq did NOT go through the sync_fn is a correspondence difference, not a violation of C15 -/
+example : spec ((observe (cG 0) demoPair).map (fun ob => { ob with log := ob.log.filter (fun e => !isSfn e) })) = true ∧
+    sameViews (observe (cG 0) demoPair)
+      ((observe (cG 0) demoPair).map (fun ob => { ob with log := ob.log.filter (fun e => !isSfn e) })) = false := by decide
 
 /-- a program that works, then makes a synchronous call in a child, then goes on: the prefix clause of
     `C15_deliveries_agree_partial` is not vacuous (4 events before the refusal) -/
